@@ -1062,7 +1062,7 @@ func main() {
 
 	// ---- rune tables and JSON decoding of the model against the Go libraries
 	runeOps(run, rng)
-	jsonOps(run, rng, run.Pick(1500, 20000))
+	jsonOps(run, rng, run.Pick(1500, 60000))
 
 	// ---- private network (enterprise transactions allowed)
 	w := newWorld(run, filepath.Join(dir, "priv"), false)
@@ -1096,7 +1096,7 @@ func main() {
 	qm34 := base58.Encode(append([]byte{0x12, 32}, bytes.Repeat([]byte{7}, 32)...))
 
 	// phase 0: fresh state: nobody staked, no names, no admins
-	batch(w, "0-fresh", []int{0, 3}, run.Pick(150, 3000))
+	batch(w, "0-fresh", []int{0, 3}, run.Pick(150, 12000))
 	fieldCases(w, rng, thorough)
 
 	// phase 1: accounts 0 and 1 stake, 0 creates a name, 0 becomes enterprise admin
@@ -1104,7 +1104,7 @@ func main() {
 	must(one(w, 1, sys, `{"Name":"v1stake"}`, coins(10000), true))
 	must(one(w, 0, nam, `{"Name":"v1createName","Args":["abcdefghijkl"]}`, coins(1), true))
 	must(one(w, 0, ent, `{"Name":"appendAdmin","Args":["`+a0+`"]}`, nil, true))
-	batch(w, "1-just-staked", []int{0}, run.Pick(50, 500))
+	batch(w, "1-just-staked", []int{0}, run.Pick(50, 2000))
 	// a name account: signed by the owner's key, Account = the name
 	for _, p := range []string{`{"Name":"v1updateName","Args":["abcdefghijkl","` + types.EncodeAddress(w.addrs[1]) + `"]}`, `{"Name":"v1updateName","Args":["abcdefghijkl",5]}`, `{"Name":"v1stake"}`} {
 		rc := nam
@@ -1119,7 +1119,7 @@ func main() {
 	for _, fv := range []int32{0, 2, 3, 4} {
 		w.fv = fv
 		w.mp = nil
-		batch(w, fmt.Sprintf("2-staked-fork%d", fv), []int{0, 2}, run.Pick(40, 400))
+		batch(w, fmt.Sprintf("2-staked-fork%d", fv), []int{0, 2}, run.Pick(40, 1500))
 		if !thorough && fv == 2 {
 			break
 		}
@@ -1146,11 +1146,11 @@ func main() {
 	must(one(w, 0, ent, `{"Name":"setConf","Args":["rpcpermissions","dGVzdA==:RW","Y2VydA==:R"]}`, nil, true))
 	must(one(w, 0, ent, `{"Name":"setConf","Args":["accountwhite","`+a0+`"]}`, nil, true))
 	must(one(w, 0, ent, `{"Name":"enableConf","Args":["rpcpermissions",true]}`, nil, true))
-	batch(w, "3-just-voted", []int{0, 1}, run.Pick(30, 300))
+	batch(w, "3-just-voted", []int{0, 1}, run.Pick(30, 1500))
 
 	// phase 4: a day later they may vote again
 	w.blockNo += system.VotingDelay + 10
-	batch(w, "4-revote", []int{0, 1}, run.Pick(60, 1000))
+	batch(w, "4-revote", []int{0, 1}, run.Pick(60, 4000))
 	must(one(w, 0, ent, `{"Name":"enableConf","Args":["accountwhite",true]}`, nil, true))
 	batch(w, "4-whitelist-on", []int{0, 1}, 0)
 
